@@ -557,6 +557,8 @@ def format_datetime(format: str, value: datetime.datetime) -> str:
     if tzname is not None:
         tz += ":" + tzname
 
+    # strftime("%Y") doesn't zero-pad years before 1000 on all platforms
+    format = format.replace("%Y", f"{value_bumped.year:04d}")
     return f"{value_bumped.strftime(format)}.{ms:03d}[{tz}]"
 
 
